@@ -662,6 +662,11 @@ impl TabletsInfo {
     }
 }
 
+#[cfg(scylla_verif)]
+#[path = "tablets_verif.rs"]
+#[allow(missing_docs, unreachable_pub, unnameable_types)]
+pub(crate) mod verif;
+
 #[cfg(test)]
 mod tests {
     use std::collections::{HashMap, HashSet};
